@@ -160,3 +160,17 @@ def magnitude_specs():
     out.append(spec(n2, (), [((0, 0), 1e-12)], "f8"))
     out.append(spec(n2, (), [((0, 0), 1e-12 + 1e-12j), ((1, 0), 1e-20j)], "c16"))
     return out
+
+
+def wide_array_specs():
+    """shape-(2,) arrays whose two elements are a wide polynomial and its companion (see wide_specs)"""
+    ws = wide_specs()
+    out = []
+    for (la, a), (lb, b) in zip(ws[0:10:2], ws[1:10:2]):
+        rows = sorted({tuple(e) for e, _ in a["t"]} | {tuple(e) for e, _ in b["t"]})
+        da = {tuple(e): dec for e, dec in ((e, c[0]) for e, c in a["t"])}
+        db = {tuple(e): dec for e, dec in ((e, c[0]) for e, c in b["t"])}
+        out.append((la + " array", {"n": a["n"], "s": [2], "d": "i8", "t": [[list(e), [da.get(e, 0), db.get(e, 0)]] for e in rows], "v": "canon"}))
+    n3 = ("q0", "q1", "q2")
+    out.append(("3 names big exponents array", spec(n3, (2,), [((0, 0, 1700), [1, 0]), ((0, 1000, 700), [-1, 2]), ((70000, 0, 0), [0, 1]), ((0, 0, 0), [3, 0])])))
+    return out
